@@ -10,17 +10,18 @@ PROP = {
         # (a) reply_parser, structure-aware generator (rapidcheck).  Must stay the FIRST rapidcheck sub-check named reply_parser:
         # the *.txt regression inputs of (a) are replayed through it (their first line names the sub).
         {"target": "c15_reply_rc", "sub": "reply_parser",
-         "quick": {"cases": 5000, "max_size": 100, "workers": 4, "case_alarm": 60},
+         "quick": {"cases": 6000, "max_size": 100, "workers": 4, "case_alarm": 60},
          "thorough": {"cases": 300000, "max_size": 100, "workers": 4, "case_alarm": 60}},
         # (b) lookup_lifecycle (rapidcheck + virtual clock + real UDP over loopback)
         {"target": "c15_lifecycle_rc", "sub": "lookup_lifecycle",
-         "quick": {"cases": 1500, "max_size": 100, "workers": 4, "case_alarm": 60},
+         "quick": {"cases": 2000, "max_size": 100, "workers": 4, "case_alarm": 60},
          "thorough": {"cases": 100000, "max_size": 100, "workers": 4, "case_alarm": 60}},
         # (a) reply_parser, libFuzzer (even workers start from corpus/C15/reply_parser, odd ones from an empty corpus).
-        # Non-termination is part of the property: a timeout-* artifact counts (25 s per datagram of <= 4 KiB is never load noise;
-        # the harness itself also fails any datagram that costs more than 1 s of CPU).
-        {"target": "c15_reply_fuzz", "sub": "reply_parser", "dict": _DICT, "timeout_is_violation": True,
-         "quick": {"runs": 100000, "max_len": 600, "workers": 4, "unit_timeout": 25},
+        # Non-termination is part of the property: the harness's own CPU-time watchdog (5 s of CPU inside one onUdpRecv call) saves the
+        # case as a text replay and exits with status 3 (hang_is_violation: the saved text case is replayed by the rapidcheck sub);
+        # a libFuzzer timeout-* artifact (25 s wall for a datagram of <= 4 KiB) counts as well.
+        {"target": "c15_reply_fuzz", "sub": "reply_parser", "dict": _DICT, "timeout_is_violation": True, "hang_is_violation": True,
+         "quick": {"runs": 125000, "max_len": 600, "workers": 4, "unit_timeout": 25},
          "thorough": {"runs": 3000000, "max_len": 1500, "workers": 8, "unit_timeout": 25}},
     ],
     "assumptions": [
